@@ -26,8 +26,8 @@ def prop(pid, **kw):
     PROPS[pid] = kw
 
 
-# The property table is filled in by vlib/proptable.py (kept separate: text heavy).
-from . import proptable  # noqa: E402,F401
+# The property table is filled in by vlib/ptab/*.py (one file per family).
+from . import ptab  # noqa: E402,F401
 
 
 def write_evidence(pid, tier, seed, spec, hs, obligations, info, wall, violations, exit_code):
